@@ -128,3 +128,65 @@ Proof.
     apply Qle_bool_iff in E1, E2. assert (H : (a == b)%Q) by (apply Qle_antisym; assumption).
     apply Qeq_bool_iff in H. congruence.
 Qed.
+
+(* ---- C02 stated about the GENERATED ParetoDominance.compare on the executable carrier xq (every non-NaN
+   float value incl. +-inf): the definition produced from the source text always answers, with the specified
+   value; swapping the arguments negates the answer; nothing beats itself; "dominates" is transitive.
+   [wf] = objective vector of the declared length and a constraint violation that is >= 0 (Props/C02.v). ---- *)
+From PV Require Import Proofs.DominanceProofs Props.C02.
+
+Section C02_generated.
+  Variable O : NumOps xq.
+  Hypothesis Hlt : n_lt O = xltb.
+  Hypothesis Hneg : n_neg O = xneg.
+  Hypothesis Heq : n_eq O = xeqb.
+  Hypothesis Hz : n_lit O 0%Q = xzero.
+  Notation gen nconstrs dirs s1 s2 :=
+    (Core.ParetoDominance_compare xq O nconstrs (Z.of_nat (length dirs)) dirs (d_cv s1) (d_objs s1) (d_cv s2) (d_objs s2)).
+  Notation xwf := (wf xq xltb xzero).
+  Notation xbetter := (better xq xltb xneg).
+
+  Lemma gen_is_model : forall nconstrs dirs (s1 s2 : xdsol), xwf dirs s1 -> xwf dirs s2 ->
+    gen nconstrs dirs s1 s2 = Some (x_pareto_compare (nconstrs >? 0) dirs s1 s2).
+  Proof.
+    intros nconstrs dirs s1 s2 [L1 _] [L2 _]. exact (tie_pareto_compare_xq O Hlt Hneg Heq Hz nconstrs dirs s1 s2 L1 L2).
+  Qed.
+
+  Theorem tie_c02_generated_spec : forall nconstrs dirs (s1 s2 : xdsol), xwf dirs s1 -> xwf dirs s2 ->
+    gen nconstrs dirs s1 s2 =
+      Some (if xbetter (nconstrs >? 0) dirs s1 s2 then -1 else if xbetter (nconstrs >? 0) dirs s2 s1 then 1 else 0).
+  Proof.
+    intros nconstrs dirs s1 s2 W1 W2. rewrite (gen_is_model _ _ _ _ W1 W2). f_equal.
+    exact (c02_xq_compare_spec (nconstrs >? 0) dirs s1 s2 W1 W2).
+  Qed.
+
+  Theorem tie_c02_generated_antisym : forall nconstrs dirs (s1 s2 : xdsol), xwf dirs s1 -> xwf dirs s2 ->
+    exists z, gen nconstrs dirs s1 s2 = Some z /\ gen nconstrs dirs s2 s1 = Some (- z).
+  Proof.
+    intros nconstrs dirs s1 s2 W1 W2. eexists. split; [exact (gen_is_model _ _ _ _ W1 W2)|].
+    rewrite (gen_is_model _ _ _ _ W2 W1). f_equal.
+    exact (c02_antisym xq xltb xneg xzero c02_instance_xq (nconstrs >? 0) dirs s1 s2 W1 W2).
+  Qed.
+
+  Theorem tie_c02_generated_irrefl : forall nconstrs dirs (s : xdsol), xwf dirs s -> gen nconstrs dirs s s = Some 0.
+  Proof.
+    intros nconstrs dirs s W. rewrite (gen_is_model _ _ _ _ W W). f_equal.
+    exact (c02_irrefl xq xltb xneg xzero c02_instance_xq (nconstrs >? 0) dirs s W).
+  Qed.
+
+  Theorem tie_c02_generated_dominates_trans : forall nconstrs dirs (s1 s2 s3 : xdsol),
+    xwf dirs s1 -> xwf dirs s2 -> xwf dirs s3 ->
+    gen nconstrs dirs s1 s2 = Some (-1) -> gen nconstrs dirs s2 s3 = Some (-1) -> gen nconstrs dirs s1 s3 = Some (-1).
+  Proof.
+    intros nconstrs dirs s1 s2 s3 W1 W2 W3 H12 H23.
+    rewrite (gen_is_model _ _ _ _ W1 W2) in H12. rewrite (gen_is_model _ _ _ _ W2 W3) in H23.
+    rewrite (gen_is_model _ _ _ _ W1 W3). f_equal.
+    injection H12 as H12. injection H23 as H23.
+    exact (c02_dominates_trans xq xltb xneg xzero c02_instance_xq (nconstrs >? 0) dirs s1 s2 s3 W1 W2 W3 H12 H23).
+  Qed.
+End C02_generated.
+
+Print Assumptions tie_c02_generated_spec.
+Print Assumptions tie_c02_generated_antisym.
+Print Assumptions tie_c02_generated_irrefl.
+Print Assumptions tie_c02_generated_dominates_trans.
